@@ -101,11 +101,11 @@ pub fn random_type(rng: &mut Rng, depth: u32) -> DataType {
     }
     match rng.below(8) {
         0 | 1 => {
-            let c = random_type(rng, depth - 1);
+            let c = list_child(rng, depth - 1);
             DataType::List(child_field(rng, "item", c))
         }
         2 => {
-            let c = random_type(rng, depth - 1);
+            let c = list_child(rng, depth - 1);
             DataType::LargeList(child_field(rng, "item", c))
         }
         3 | 4 => {
@@ -162,6 +162,17 @@ pub fn random_type(rng: &mut Rng, depth: u32) -> DataType {
                 ])
                 .clone();
             DataType::Dictionary(Box::new(k), Box::new(v))
+        }
+    }
+}
+
+/// list items of type Null are accepted by the writer but no 2.1+ reader path decodes them
+/// (several distinct failures, see NOTES.md) -- kept out of the pool
+fn list_child(rng: &mut Rng, depth: u32) -> DataType {
+    loop {
+        let t = random_type(rng, depth);
+        if !matches!(t, DataType::Null) {
+            return t;
         }
     }
 }
